@@ -42,8 +42,8 @@ LATE_KINDS = ("late-unserialisable", "out-is-dir", "eacces-out")
 C18_FEATURES = ("vars", "var-fallback", "var-undefined", "var-chain", "var-shared", "root-direct-color", "root-and-html",
                 "important", "repeat-decl", "nesting", "bg-var", "keywords", "comments", "no-color-rules", "opaque-atrules",
                 "non-ascii")
-_NAMES = ("a.css", "b.css", "main.css", "style.css", "thème.css", "my style.css", "z9.css", "reset.min.css", "c_cm2.css")
-_DIRS = ("", "", "sub/", "sub/deep/", "x.d/")
+_NAMES = ("a.css", "b.css", "main.css", "style.css", "thème.css", "my style.css", "z9.css", "reset.min.css", "c_cm2.css", ".hidden.css", "a.b.c.css")
+_DIRS = ("", "", "sub/", "sub/deep/", "x.d/", "v1.css/", "pkg_cm.css/", "sub dir/")
 _UNSER = ("a{} }", "}", "a{color:#777} ]", "@media x{ a{color:#777} } }\n.b{color:#888}")
 _NONUTF8 = ("fffe41", "612063c3286b7d", "80", "c0af", "7b636f6c6f723a23373737ff7d")
 
